@@ -83,6 +83,6 @@ StateJson == [w |-> W,
 EmitState == PrintT(<<"EDGE", ToJson(StateJson)>>)
 EmitFull == Cardinality(Ids) = MaxEv => EmitState
 \* simulation targets: behaviours are cut (and the DAG emitted) where the interesting situation first appears
-NoTie == ~HasTie(ev, anc)
-NoLateDecision == ~HasLateDecision(ev, anc)
+NoTie == ~HasTie(ev, anc) \/ (EmitState /\ FALSE)
+NoLateDecision == ~HasLateDecision(ev, anc) \/ (EmitState /\ FALSE)
 =============================================================================
